@@ -242,6 +242,11 @@ def run(ctx, repo, tier):
         pair_ok = v_ in m_.get("output.eigenvalues", "") and w_ in m_.get("output.eigenvectors", "")
     ctx.check(pair_ok, "FLOW", "C14.decomp.outputs", "eigenvalues and eigenvectors are stored under their own output names", "workflow/run_sqra:rule run_decomposition",
               witness=str([src(s_)[:60] for s_ in saves]))
+    # ------------------------------------------------------------ inherited: symmetric position-grid borders and distances (C05):
+    # detailed balance of the rate matrix needs S_ij = S_ji and h_ij = h_ji
+    from .C05 import analyse as c05_analyse
+    for prop in ("border_len", "center_distances"):
+        c05_analyse(ctx, repo, prop)
     # ------------------------------------------------------------ inherited: folded rotation block
     check_fold(ctx, repo, "C14")
     ctx.require_instances("FLOW", 10, "wiring obligations")
